@@ -41,6 +41,10 @@ def testCaseName (path : Str) : Str :=
 /-- `format!("{test_case_name}_{random_id}")` with an 8-character suffix -/
 def dbName (path : Str) (suffix : Str) : Str := testCaseName path ++ '_' :: suffix
 
+/-- the library's `run_parallel` (runner.rs): `format!("{}_{idx}", filename.replace(..))`, `idx` the
+    file's position in the glob -/
+def libDbName (path : Str) (idx : Nat) : Str := testCaseName path ++ '_' :: natToStr idx
+
 /-! ### results -/
 
 inductive FileResult
